@@ -433,11 +433,51 @@ func init() {
 				rg.compareWithModel(scopeProg(i), []string{"x", "y"}, r, false)
 			},
 		}
+		// vector and map literals are expressions too: their elements are evaluated left to right wherever
+		// the literal stands, also as a statement of a body whose value is dropped
+		var lg *enum.Grammar
+		lgW := func() int {
+			if tier == "thorough" {
+				return 6
+			}
+			return 5
+		}
+		lgOf := func() *enum.Grammar {
+			if lg == nil {
+				ps := []enum.Prod{
+					leaf("1", model.Int(1)), leaf("x", sym("x")), leaf("zz", sym("zz")), leaf("(t! 0)", form("t!", model.Int(0))), leaf("(t! 1)", form("t!", model.Int(1))),
+					leaf("[]", model.Vec()), leaf("{}", mp()),
+					node("vec1", 1, func(k []V) V { return model.Vec(k[0]) }),
+					node("vec2", 2, func(k []V) V { return model.Vec(k[0], k[1]) }),
+					node("map1", 1, func(k []V) V { return mp(kw("k"), k[0]) }),
+					node("do2", 2, func(k []V) V { return form("do", k[0], k[1]) }),
+					node("do3", 3, func(k []V) V { return form("do", k[0], k[1], k[2]) }),
+					node("let-body2", 3, func(k []V) V { return form("let", model.Vec(sym("x"), k[0]), k[1], k[2]) }),
+					node("fn-body2-called", 2, func(k []V) V { return model.List(form("fn", model.Vec(), k[0], k[1])) }),
+					node("defx", 1, func(k []V) V { return form("def", sym("x"), k[0]) }),
+					node("if3", 3, func(k []V) V { return form("if", k[0], k[1], k[2]) }),
+					node("list1", 1, func(k []V) V { return form("list", k[0]) }),
+					node("try-catch", 2, func(k []V) V { return form("try", k[0], form("catch", sym("e"), k[1])) }),
+				}
+				lg = enum.New([][]enum.Prod{ps}, lgW())
+			}
+			return lg
+		}
+		literals := &vf.Family{
+			Name:     "literals-in-bodies",
+			Bounds:   "all programs of weight <=5 (quick) / <=6 (thorough) over leaves {1, x, zz (unbound), (t! 0), (t! 1), [], {}} and vector literals of 1 and 2 elements, a map literal, do of 2 and 3 forms, let and fn bodies of 2 forms, def, if, list, try/catch",
+			Setup:    func(t string) { tier = t; setup(t) },
+			N:        func(t string) int64 { tier = t; return lgOf().Count(0, lgW()) },
+			Describe: func(i int64) string { return lgOf().Unrank(0, i).Lisp() },
+			Run: func(i int64, r *vf.Rec) {
+				rg.compareWithModel(lgOf().Unrank(0, i), []string{"x", "y"}, r, true)
+			},
+		}
 		return &vf.Check{
 			ID: "C01", Level: "model_checking",
 			Rule:        "every program of the bounded grammar is evaluated by the real EVAL and by an independent definitional interpreter; result (or error kind and thrown value), ordered effect trace and final bindings of x, y, f must agree; non-trivial = the program has effects or binds a global",
 			Assumptions: []string{"the definitional interpreter (harness/internal/model/interp.go) transcribes the mal definition as amended by the README", "error messages are not compared, only value-vs-error, thrown payload, trace and bindings", "programs that run out of fuel on either side are skipped and counted"},
-			Families:    []*vf.Family{core, rec, scoping},
+			Families:    []*vf.Family{core, rec, scoping, literals},
 		}
 	})
 }
